@@ -1629,9 +1629,11 @@ impl<'comments> Formatter<'comments> {
             _ => panic!("Function capture found not to have a function call body when formatting"),
         };
 
+        // NOTE: a labelled hole cannot be elided, the label decides which parameter is piped into.
         let hole_in_first_position = matches!(
             args.first(),
             Some(CallArg {
+                label: None,
                 value: UntypedExpr::Var { name, .. },
                 ..
             }) if name.contains(CAPTURE_VARIABLE)
@@ -1670,7 +1672,11 @@ impl<'comments> Formatter<'comments> {
                 arguments: args,
                 ..
             } => match args.as_slice() {
-                [first, second] if is_breakable_expr(&second.value) && first.is_capture_hole() => {
+                [first, second]
+                    if is_breakable_expr(&second.value)
+                        && first.is_capture_hole()
+                        && first.label.is_none() =>
+                {
                     let discard_name = match first.value {
                         UntypedExpr::Var { ref name, .. } => name.split("_").last().unwrap_or("_"),
                         _ => "",
